@@ -203,3 +203,22 @@ Fixpoint merge_spec (acc : list vpage) (rest : list (list vpage)) (divider : boo
         end
       else merge_spec (acc ++ d) r divider
   end.
+
+(* ---------------- pkg/pdfcpu/merge.go: object renumbering of the source ----------------
+   patchSourceObjectNumbers:  objNrs := objNrsIntSet(ctxSrc)          (all source numbers except 0)
+                              lookup := lookupTable(objNrs, *ctxDest.Size)
+   lookupTable(keys, i):      for k := range keys { m[k] = i; i++ }    (map order: ANY order of the keys)
+   appendSourceObjectsToDest: for objNr, entry := range ctxSrc.Table (renumbered) { ctxDest.Table[objNr] = entry; *ctxDest.Size++ }
+   `keys` is the list of source object numbers in the order the map iteration happens to produce. *)
+Definition renumber (keys : list Z) (dsize : Z) : list (Z * Z) :=
+  combine keys (map (fun i => dsize + Z.of_nat i) (seq 0 (length keys))).
+Definition new_numbers (keys : list Z) (dsize : Z) : list Z := map snd (renumber keys dsize).
+
+(* object tables as partial functions; the source as a list of (number, object) in iteration order *)
+Definition merged_table {O : Type} (dest : Z -> option O) (src : list (Z * O)) (dsize : Z) : Z -> option O :=
+  fun n =>
+    match find (fun kv => fst kv =? n) (combine (new_numbers (map fst src) dsize) (map snd src)) with
+    | Some kv => Some (snd kv)          (* ctxDest.Table[objNr] = entry overwrites whatever was there *)
+    | None => dest n
+    end.
+Definition merged_size {O : Type} (src : list (Z * O)) (dsize : Z) : Z := dsize + lenZ src.
